@@ -104,6 +104,10 @@ class ObjFn(FnTr):
                 q = c.get("type", {}).get("qualType", "")
                 if strip_cv(q.rstrip("&").strip()) in ("ASAM::CMP::Packet", "Packet") and q.strip().endswith("&"):
                     nm = self.vname(c.get("name"), "a_")
+                    if hasattr(self, "opkts"):
+                        f.params.append((nm, ("opkt",)))
+                        self.local_ty[nm] = "OPkt"
+                        continue
                     self.pkt[c["id"]] = nm
                     f.params.append((nm, ("pkt",)))
                     self.local_ty[nm] = "PktIn"
@@ -1064,7 +1068,7 @@ class ObjTranslator:
                 out.append(a)
             ps = []
             for nm, t in f.params:
-                ps.append("(%s : %s)" % (nm, "PktIn" if t[0] == "pkt" else ("Bool" if t[0] == "b" else "Nat")))
+                ps.append("(%s : %s)" % (nm, "PktIn" if t[0] == "pkt" else ("OPkt" if t[0] == "opkt" else ("Bool" if t[0] == "b" else "Nat"))))
             rt = {"v": "Unit", "b": "Bool", "frames": "List Bytes", "pktlist": "List PktOut", "pktptr": "PktOut"}.get(f.ret[0], "Nat")
             for e_ in getattr(f, "ext_fns", []):
                 ps.append("(%s : Bytes → Nat → Nat → List PktOut)" % e_)
@@ -1082,3 +1086,394 @@ class ObjTranslator:
         out.append("def %s_untranslated : List (String × String) := [%s]" % (
             self.cls.lean, ", ".join('("%s", "%s")' % (k, v.replace('"', "'")[:100]) for k, v in sorted(self.failed.items()))))
         return "\n".join(out) + "\n"
+
+
+# =====================================================================================================================
+# Status tracker: classes whose members are vectors of objects of another translated class and stored packets.
+# A stored / passed `Packet` is OPAQUE here: `OPkt` is the table of the values its getter chains return
+# (`opq p "getDeviceId"`, `opq p "getPayload.getType"`, `opq p "getPayload.as_InterfacePayload.getInterfaceId"`).
+# =====================================================================================================================
+
+def st_field_kind(T, fd):
+    t = fd.get("type", {})
+    q = strip_cv(t.get("desugaredQualType") or t.get("qualType") or "")
+    m = re.fullmatch(r"std::vector<(.*?)(?:, std::allocator<.*>)?>", q)
+    if m and m.group(1) not in ("unsigned char", "uint8_t"):
+        return ("objvec", m.group(1))
+    if q in ("ASAM::CMP::Packet", "Packet"):
+        return ("opkt", None)
+    return ("scalar", None)
+
+
+class StClassInfo(ClassInfo):
+    def __init__(self, T, rec, elem=None):
+        self.T = T
+        self.rec = rec
+        self.elem = elem
+        self.qual = T.tu.qualname(rec)
+        self.lean = T.ident(self.qual)
+        self.fields = []
+        for c in rec.get("inner", []):
+            if c.get("kind") == "FieldDecl" and c.get("name"):
+                k, el = st_field_kind(T, c)
+                ct = None
+                if k == "scalar":
+                    try:
+                        ct = T.ctype(c.get("type"))
+                    except Untranslatable:
+                        continue
+                    if ct[0] not in ("i", "b"):
+                        continue
+                self.fields.append((c["name"], k, ct))
+        self.by_name = {f[0]: f for f in self.fields}
+
+    def struct(self):
+        out = ["/-- state of `%s`: one field per data member -/" % self.qual, "structure %s_St where" % self.lean]
+        for nm, k, ct in self.fields:
+            ty = {"objvec": "List %s_St" % (self.elem.cls.lean if self.elem else "Unit"), "opkt": "OPkt"}.get(k) or ("Bool" if ct[0] == "b" else "Nat")
+            out.append("  f_%s : %s" % (nm, ty))
+        out.append("deriving Repr, Inhabited\n")
+        return "\n".join(out)
+
+
+class StFn(ObjFn):
+    def __init__(self, OT, node):
+        ObjFn.__init__(self, OT, node)
+        self.opkts = {}        # decl id of a packet parameter -> lean name
+        self.elemvars = {}     # decl id of a lambda parameter / local object of the element class -> lean name
+        self.iters = {}        # decl id of a local iterator obtained by find_if -> lean index expression
+
+    # ---------------------------------------------------------------- entry: packet parameters are opaque tables
+    def run_obj(self):
+        n = self.node
+        for c in n.get("inner", []):
+            if c.get("kind") == "ParmVarDecl":
+                q = c.get("type", {}).get("qualType", "")
+                if strip_cv(q.rstrip("&").strip()) in ("ASAM::CMP::Packet", "Packet") and q.strip().endswith("&"):
+                    self.opkts[c["id"]] = self.vname(c.get("name"), "a_")
+        return ObjFn.run_obj(self)
+
+    # ---------------------------------------------------------------- opaque packet chains
+    def chain(self, n):
+        """(lean packet expression, key) if n is a chain of member calls / reference casts rooted at an opaque packet"""
+        while n.get("kind") in ("ParenExpr", "ImplicitCastExpr", "MaterializeTemporaryExpr", "CXXBindTemporaryExpr", "ExprWithCleanups") and n.get("castKind") not in ("UserDefinedConversion", "ConstructorConversion"):
+            n = n["inner"][0]
+        k = n.get("kind")
+        if k == "DeclRefExpr" and n["referencedDecl"]["id"] in self.opkts:
+            return (self.opkts[n["referencedDecl"]["id"]], "")
+        f = self.this_field(n) if k == "MemberExpr" else None
+        if f is not None and f[1] == "opkt":
+            return ("s.f_%s" % f[0], "")
+        if k == "CXXStaticCastExpr" and n.get("castKind") in ("BaseToDerived", "DerivedToBase", "NoOp"):
+            r = self.chain(n["inner"][0])
+            if r is not None:
+                tgt = strip_cv(n["type"]["qualType"].rstrip("&").strip()).split("::")[-1]
+                return (r[0], (r[1] + "." if r[1] else "") + "as_" + tgt)
+        if k == "CXXMemberCallExpr" and len(n["inner"]) == 1:
+            me = n["inner"][0]
+            if me.get("kind") == "MemberExpr":
+                base = me["inner"][0]
+                b = base
+                while b.get("kind") in ("ParenExpr", "ImplicitCastExpr"):
+                    b = b["inner"][0]
+                # element.getPacket(): a method of the element class whose body is `return <packet member>;`
+                if b.get("kind") == "DeclRefExpr" and b["referencedDecl"]["id"] in self.elemvars:
+                    fld = self.returns_member(me.get("referencedMemberDecl"), self.OT.elem)
+                    if fld is not None and fld[1] == "opkt":
+                        return ("%s.f_%s" % (self.elemvars[b["referencedDecl"]["id"]], fld[0]), "")
+                    return None
+                r = self.chain(base)
+                if r is not None:
+                    return (r[0], (r[1] + "." if r[1] else "") + me.get("name"))
+        return None
+
+    def returns_member(self, declid, OT):
+        """the member a trivial accessor returns (`return member;`), looked up in translator OT's class"""
+        if OT is None or declid is None:
+            return None
+        try:
+            d = self.T.definition(declid)
+        except Untranslatable:
+            return None
+        body = TU.body_of(d).get("inner", [])
+        if len(body) != 1 or body[0].get("kind") != "ReturnStmt" or not body[0].get("inner"):
+            return None
+        e = body[0]["inner"][0]
+        while e.get("kind") in ("ParenExpr", "ImplicitCastExpr"):
+            e = e["inner"][0]
+        if e.get("kind") == "MemberExpr" and e.get("isArrow") and e["inner"][0].get("kind") == "CXXThisExpr":
+            return OT.cls.by_name.get(e.get("name"))
+        return None
+
+    # ---------------------------------------------------------------- vectors of objects
+    def objvec_of(self, n):
+        while n.get("kind") in ("ParenExpr", "ImplicitCastExpr", "MaterializeTemporaryExpr"):
+            n = n["inner"][0]
+        f = self.this_field(n) if n.get("kind") == "MemberExpr" else None
+        if f is not None and f[1] == "objvec":
+            return f[0]
+        return None
+
+    def elem_ref(self, n, B):
+        """(vector field, index lean expr) if n is `this->vec[idx]`"""
+        while n.get("kind") in ("ParenExpr", "ImplicitCastExpr", "MaterializeTemporaryExpr"):
+            n = n["inner"][0]
+        if n.get("kind") == "CXXOperatorCallExpr" and self.strip_casts(n["inner"][0]).get("referencedDecl", {}).get("name") == "operator[]":
+            v = self.objvec_of(n["inner"][1])
+            if v is not None:
+                return v, self.ex(n["inner"][2], B)
+        return None
+
+    def lambda_pred(self, lam, vecfield):
+        """Lean predicate `fun e_ => …` of a one-return lambda over the element class"""
+        body = [c for c in lam.get("inner", []) if c.get("kind") == "CompoundStmt"]
+        rec = [c for c in lam.get("inner", []) if c.get("kind") == "CXXRecordDecl"]
+        if not body or not rec:
+            raise Untranslatable("lambda shape")
+        op = [c for c in rec[0].get("inner", []) if c.get("kind") == "CXXMethodDecl" and c.get("name") == "operator()"]
+        params = [c for c in op[0].get("inner", []) if c.get("kind") == "ParmVarDecl"] if op else []
+        stmts = body[-1].get("inner", [])
+        if len(params) != 1 or len(stmts) != 1 or stmts[0].get("kind") != "ReturnStmt":
+            raise Untranslatable("lambda shape")
+        self.elemvars[params[0]["id"]] = "e_"
+        B = []
+        c = self.cond(stmts[0]["inner"][0], B)
+        del self.elemvars[params[0]["id"]]
+        if B:
+            raise Untranslatable("lambda with effects")
+        return "(fun e_ => %s)" % c
+
+    # ---------------------------------------------------------------- expressions
+    def ex(self, n, B):
+        k = n.get("kind")
+        x = n
+        while x.get("kind") in ("ParenExpr", "ImplicitCastExpr", "MaterializeTemporaryExpr", "ExprWithCleanups", "CXXBindTemporaryExpr") and x.get("castKind") in (None, "IntegralCast", "NoOp", "LValueToRValue"):
+            if x.get("castKind") == "IntegralCast":
+                break
+            x = x["inner"][0]
+        xk = x.get("kind")
+        # comparison of an opaque class-typed chain with an enumerator (PayloadType == PayloadType::cmStatMsg)
+        if xk == "CXXOperatorCallExpr" and self.strip_casts(x["inner"][0]).get("referencedDecl", {}).get("name") in ("operator==", "operator!=") and len(x["inner"]) == 3:
+            op = self.strip_casts(x["inner"][0])["referencedDecl"]["name"][-2:]
+            for a, b in ((x["inner"][1], x["inner"][2]), (x["inner"][2], x["inner"][1])):
+                r = self.chain(a)
+                if r is not None:
+                    c = b
+                    while c.get("kind") in ("ImplicitCastExpr", "CXXConstructExpr", "MaterializeTemporaryExpr", "CXXFunctionalCastExpr", "ExprWithCleanups", "CXXBindTemporaryExpr") and c.get("inner"):
+                        c = c["inner"][0]
+                    try:
+                        v = self.const_int(c)
+                    except Untranslatable:
+                        continue
+                    return "((opq %s \"%s\") %s %d)" % (r[0], r[1], op, v)
+        if xk == "CXXMemberCallExpr":
+            r = self.chain(x)
+            if r is not None and r[1] and self.ty_is_scalar(x):
+                return "(opq %s \"%s\")" % r
+            me = x["inner"][0]
+            if me.get("kind") == "MemberExpr" and len(x["inner"]) == 1:
+                v = self.objvec_of(me["inner"][0])
+                if v is not None and me.get("name") == "size":
+                    return "(s.f_%s).length" % v
+                b = me["inner"][0]
+                while b.get("kind") in ("ParenExpr", "ImplicitCastExpr"):
+                    b = b["inner"][0]
+                if b.get("kind") == "DeclRefExpr" and b["referencedDecl"]["id"] in self.elemvars:
+                    fld = self.returns_member(me.get("referencedMemberDecl"), self.OT.elem)
+                    if fld is not None and fld[1] == "scalar":
+                        return "%s.f_%s" % (self.elemvars[b["referencedDecl"]["id"]], fld[0])
+        if xk == "CallExpr":
+            nm = self.strip_casts(x["inner"][0]).get("referencedDecl", {}).get("name")
+            if nm == "distance" and len(x["inner"]) == 3:
+                it = x["inner"][2]
+                while it.get("kind") in ("ImplicitCastExpr", "CXXConstructExpr", "MaterializeTemporaryExpr") and it.get("inner"):
+                    it = it["inner"][0]
+                if it.get("kind") == "DeclRefExpr" and it["referencedDecl"]["id"] in self.iters:
+                    return self.iters[it["referencedDecl"]["id"]]
+        return ObjFn.ex(self, n, B)
+
+    # ---------------------------------------------------------------- statements
+    def stmt(self, s, k, ind):
+        if s.get("kind") == "DeclStmt" and len(s.get("inner", [])) == 1:
+            d = s["inner"][0]
+            init = [c for c in d.get("inner", []) if c.get("kind") not in ("FullComment",)] if d.get("kind") == "VarDecl" else []
+            if init:
+                e = init[0]
+                x = e
+                while x.get("kind") in ("ExprWithCleanups", "MaterializeTemporaryExpr", "CXXBindTemporaryExpr", "ImplicitCastExpr", "CXXConstructExpr") and x.get("inner") and len(x["inner"]) == 1:
+                    x = x["inner"][0]
+                # iterator from std::find_if(vec.begin(), vec.end(), lambda)
+                if x.get("kind") == "CallExpr" and self.strip_casts(x["inner"][0]).get("referencedDecl", {}).get("name") == "find_if" and len(x["inner"]) == 4:
+                    def vec_of(it, which):
+                        while it.get("kind") in ("ImplicitCastExpr", "MaterializeTemporaryExpr", "CXXConstructExpr") and it.get("inner"):
+                            it = it["inner"][0]
+                        if it.get("kind") == "CXXMemberCallExpr" and it["inner"][0].get("name") == which:
+                            return self.objvec_of(it["inner"][0]["inner"][0])
+                        return None
+                    v1, v2 = vec_of(x["inner"][1], "begin"), vec_of(x["inner"][2], "end")
+                    lam = x["inner"][3]
+                    while lam.get("kind") != "LambdaExpr" and lam.get("inner"):
+                        lam = lam["inner"][0]
+                    if v1 is None or v1 != v2 or lam.get("kind") != "LambdaExpr":
+                        raise Untranslatable("find_if shape")
+                    self.iters[d["id"]] = "(findIdxD %s s.f_%s)" % (self.lambda_pred(lam, v1), v1)
+                    return k(ind)
+                # default-constructed local object of the element class
+                EO = self.OT.elem
+                qd = strip_cv(d.get("type", {}).get("desugaredQualType") or d.get("type", {}).get("qualType") or "")
+                if EO is not None and e.get("kind") == "CXXConstructExpr" and not e.get("inner") and (qd == EO.cls.qual or EO.cls.qual.endswith("::" + qd)):
+                    nm = self.vname(d["name"])
+                    self.elemvars[d["id"]] = nm
+                    self.local_ty[nm] = "%s_St" % EO.cls.lean
+                    return "  " * ind + "let %s := %s_default\n" % (nm, EO.cls.lean) + k(ind)
+        return ObjFn.stmt(self, s, k, ind)
+
+    def effect(self, s, B):
+        k = s.get("kind")
+        if k in ("ExprWithCleanups", "ParenExpr"):
+            return self.effect(s["inner"][0], B)
+        # packet member = packet
+        if k == "CXXOperatorCallExpr" and self.strip_casts(s["inner"][0]).get("referencedDecl", {}).get("name") == "operator=" and len(s["inner"]) == 3:
+            f = self.this_field(s["inner"][1]) if self.strip_casts(s["inner"][1]).get("kind") == "MemberExpr" else None
+            r = self.chain(s["inner"][2])
+            if f is not None and f[1] == "opkt" and r is not None and r[1] == "":
+                B.append("let s := { s with f_%s := %s }" % (f[0], r[0]))
+                return
+        if k == "CallExpr" and self.strip_casts(s["inner"][0]).get("referencedDecl", {}).get("name") == "swap" and len(s["inner"]) == 3:
+            a, b = self.elem_ref(s["inner"][1], B), self.elem_ref(s["inner"][2], B)
+            if a is not None and b is not None and a[0] == b[0]:
+                t = self.fresh()
+                B.append("let %s ← swapIdx s.f_%s %s %s" % (t, a[0], a[1], b[1]))
+                B.append("let s := { s with f_%s := %s }" % (a[0], t))
+                return
+            raise Untranslatable("swap shape")
+        return ObjFn.effect(self, s, B)
+
+    def call(self, n, B, want_value):
+        inner = n["inner"]
+        if n["kind"] == "CXXMemberCallExpr":
+            me = inner[0]
+            while me.get("kind") in ("ParenExpr", "ImplicitCastExpr"):
+                me = me["inner"][0]
+            if me.get("kind") == "MemberExpr":
+                nm = me.get("name")
+                v = self.objvec_of(me["inner"][0])
+                if v is not None:
+                    if nm == "clear" and len(inner) == 1:
+                        B.append("let s := { s with f_%s := [] }" % v)
+                        return None
+                    if nm == "pop_back" and len(inner) == 1:
+                        B.append("let _ ← nonEmptyL s.f_%s" % v)
+                        B.append("let s := { s with f_%s := (s.f_%s).dropLast }" % (v, v))
+                        return None
+                    if nm == "push_back" and len(inner) == 2:
+                        a = inner[1]
+                        while a.get("kind") in ("ImplicitCastExpr", "MaterializeTemporaryExpr", "CXXBindTemporaryExpr", "ExprWithCleanups", "CXXConstructExpr") and a.get("inner") and len(a["inner"]) == 1:
+                            a = a["inner"][0]
+                        if a.get("kind") == "CallExpr" and self.strip_casts(a["inner"][0]).get("referencedDecl", {}).get("name") == "move":
+                            a = a["inner"][1]
+                            while a.get("kind") in ("ImplicitCastExpr", "ParenExpr"):
+                                a = a["inner"][0]
+                        if a.get("kind") == "DeclRefExpr" and a["referencedDecl"]["id"] in self.elemvars:
+                            B.append("let s := { s with f_%s := s.f_%s ++ [%s] }" % (v, v, self.elemvars[a["referencedDecl"]["id"]]))
+                            return None
+                        raise Untranslatable("push_back argument")
+                # method of an element: this->vec[idx].m(args)  /  localElement.m(args)
+                er = self.elem_ref(me["inner"][0], B)
+                b = me["inner"][0]
+                while b.get("kind") in ("ParenExpr", "ImplicitCastExpr"):
+                    b = b["inner"][0]
+                loc = self.elemvars.get(b["referencedDecl"]["id"]) if b.get("kind") == "DeclRefExpr" else None
+                if er is not None or loc is not None:
+                    EO = self.OT.elem
+                    g = EO.translate(self.T.definition(me["referencedMemberDecl"]))
+                    argv = []
+                    for a in inner[1:]:
+                        r = self.chain(a)
+                        argv.append(r[0] if (r is not None and r[1] == "") else self.ex(a, B))
+                    rr = self.fresh()
+                    if er is not None:
+                        e = self.fresh("el")
+                        B.append("let %s ← getIdx s.f_%s %s" % (e, er[0], er[1]))
+                        B.append("let (%s, %s) ← %s_obj %s %s" % (e, rr, g.lean, e, " ".join(argv)))
+                        B.append("let s := { s with f_%s := (s.f_%s).set %s %s }" % (er[0], er[0], er[1], e))
+                    else:
+                        B.append("let (%s, %s) ← %s_obj %s %s" % (loc, rr, g.lean, loc, " ".join(argv)))
+                    return None if g.ret[0] == "v" else rr
+                # method of the same object taking packets
+                base = me["inner"][0]
+                while base.get("kind") in ("ParenExpr", "ImplicitCastExpr"):
+                    base = base["inner"][0]
+                if base.get("kind") == "CXXThisExpr" and me.get("isArrow"):
+                    g = self.OT.translate(self.T.definition(me["referencedMemberDecl"]))
+                    argv = []
+                    for a in inner[1:]:
+                        r = self.chain(a)
+                        argv.append(r[0] if (r is not None and r[1] == "") else self.ex(a, B))
+                    if len(argv) != len(g.params):
+                        raise Untranslatable("argument count")
+                    callc = "%s_obj s %s" % (g.lean, " ".join(argv))
+                    if g.ret[0] == "v":
+                        B.append("let (s, _) ← %s" % callc)
+                        return None
+                    rr = self.fresh()
+                    B.append("let (s, %s) ← %s" % (rr, callc))
+                    return rr
+        return ObjFn.call(self, n, B, want_value)
+
+
+class StTranslator(ObjTranslator):
+    def __init__(self, T, class_qual, elem=None):
+        self.T = T
+        self.elem = elem
+        rec = None
+        for r in T.tu.records():
+            if T.tu.qualname(r) == class_qual:
+                rec = r
+        if rec is None:
+            raise Untranslatable("class %s not found" % class_qual)
+        self.cls = StClassInfo(T, rec, elem)
+        self.fns = {}
+        self.order = []
+        self.failed = {}
+
+    def translate(self, defnode):
+        key = id(defnode)
+        if key in self.fns:
+            f = self.fns[key]
+            if isinstance(f, Untranslatable):
+                raise f
+            if f is None:
+                raise Untranslatable("recursive call")
+            return f
+        self.fns[key] = None
+        try:
+            f = StFn(self, defnode).run_obj()
+            f.params = [(nm, t) for nm, t in f.params]
+        except Untranslatable as e:
+            self.fns[key] = e
+            self.failed[self.T.tu.qualname(defnode) + " " + defnode.get("type", {}).get("qualType", "")[:40]] = str(e)
+            raise
+        self.fns[key] = f
+        self.order.append(f)
+        return f
+
+    def default_state(self):
+        vals = []
+        h = StFn(self, self.cls.rec)
+        for nm, k, ct in self.cls.fields:
+            if k == "objvec":
+                vals.append("f_%s := []" % nm)
+            elif k == "opkt":
+                vals.append("f_%s := defaultPacket" % nm)
+            else:
+                fd = [x for x in self.cls.rec.get("inner", []) if x.get("kind") == "FieldDecl" and x.get("name") == nm][0]
+                init = [x for x in fd.get("inner", []) if x.get("kind") not in ("FullComment",)]
+                e0 = init[0] if init else None
+                while e0 is not None and e0.get("kind") == "InitListExpr" and len(e0.get("inner", [])) == 1:
+                    e0 = e0["inner"][0]
+                if e0 is None:
+                    raise Untranslatable("member %s without default initialiser" % nm)
+                B = []
+                vals.append("f_%s := %s" % (nm, "0" if (e0.get("kind") == "InitListExpr") else h.ex(e0, B)))
+        return "def %s_default : %s_St := { %s }\n" % (self.cls.lean, self.cls.lean, ", ".join(vals))
